@@ -206,6 +206,7 @@ func judgeState(img *seam.MemStore, cfg v1x.Config, fast bool, st *vstate, unive
 	c2 := cfg
 	c2.Fast = fast
 	c2.Cache = 0
+	imgOlder := img.Clone() // (opening a handle may repair the image: the second handle gets its own copy)
 	t := iavl.NewMutableTree(img, c2.Cache, !c2.Fast, iavl.NewNopLogger(), v1x.Options(v1x.Config{Flush: cfg.Flush, Initial: 0})...)
 	lv, err := t.Load()
 	if err != nil {
@@ -232,6 +233,50 @@ func judgeState(img *seam.MemStore, cfg v1x.Config, fast bool, st *vstate, unive
 		}
 		if !bytes.Equal(hash, st.hashes[v]) {
 			return avail, fmt.Sprintf("version %d has hash %x, expected %x", v, hash, st.hashes[v]), "hash"
+		}
+	}
+	// a handle opened at an OLDER version must serve every version (in particular the latest one,
+	// through GetImmutable / GetVersioned) just as well
+	if len(avail) >= 2 {
+		t2 := iavl.NewMutableTree(imgOlder, c2.Cache, !c2.Fast, iavl.NewNopLogger(), v1x.Options(v1x.Config{Flush: cfg.Flush, Initial: 0})...)
+		if _, err := t2.LoadVersion(avail[0]); err != nil {
+			return avail, fmt.Sprintf("LoadVersion(%d) (oldest available) fails: %v", avail[0], err), "load-older-fails"
+		}
+		for _, v := range avail {
+			hash, p := readVersionAllPaths(t2, v, universe, st.snaps[v])
+			if p != "" {
+				return avail, fmt.Sprintf("through a handle loaded at version %d: %s", avail[0], p), "version-unreadable-or-wrong-from-older-handle"
+			}
+			if !bytes.Equal(hash, st.hashes[v]) {
+				return avail, fmt.Sprintf("through a handle loaded at version %d: version %d has hash %x, expected %x", avail[0], v, hash, st.hashes[v]), "hash"
+			}
+		}
+	}
+	// without any version the loaded tree is empty on every read path
+	if len(avail) == 0 {
+		var gk []string
+		t.Iterate(func(k, val []byte) bool { gk = append(gk, string(k)); return false })
+		for _, asc := range []bool{true, false} {
+			if it, err := t.Iterator(nil, nil, asc); err == nil {
+				for ; it.Valid(); it.Next() {
+					gk = append(gk, string(it.Key()))
+				}
+				it.Close()
+			}
+			if it, err := t.ImmutableTree.Iterator(nil, nil, asc); err == nil {
+				for ; it.Valid(); it.Next() {
+					gk = append(gk, string(it.Key()))
+				}
+				it.Close()
+			}
+		}
+		for _, k := range universe {
+			if got, err := t.Get(k); err != nil || got != nil {
+				gk = append(gk, string(k))
+			}
+		}
+		if len(gk) > 0 || t.Size() != 0 {
+			return avail, fmt.Sprintf("the store has no version, but the loaded (empty) tree yields keys %q on Iterate / Iterator / Get (Size=%d)", gk, t.Size()), "phantom-keys-without-version"
 		}
 	}
 	// the working tree of the loaded handle equals the latest version
@@ -376,7 +421,7 @@ func init() {
 		Level: "fault_enumeration",
 		Cases: func(tier string) int { return tierN(tier, 240, 10000) },
 		Rule: "case = one history (12-40 ops; 1-8 keys, values up to 600 bytes; flush thresholds 150/300/800/default so that one logical operation is several physical batch writes; fast index on/off). Every SaveVersion, DeleteVersionsTo, LoadVersionForOverwriting, first-time fast-index build on open, (1 case in 4) an import commit and (1 case in 60) an import of >10000 nodes with its background batch writes delayed at the seam is executed once over the recording storage wrapper; for EVERY k in 0..m the image 'state before + first k physical writes' is materialised and judged: " +
-			"a fresh tree (fresh caches; same and opposite fast-index setting) must Load(); its available versions must be the set before or after the operation (for multi-version deletions a contiguous intermediate is accepted and counted as 'partial'); every available version must be readable with the expected contents and root hash on tree walk, Iterator, Get (fast path where enabled) and GetVersioned, and the loaded working tree must equal the latest version; then the interrupted operation is repeated from the reopened image (re-applying the uncommitted writes for a commit) and the result must equal the crash-free result exactly. " +
+			"a fresh tree (fresh caches; same and opposite fast-index setting) must Load(); its available versions must be the set before or after the operation (for multi-version deletions a contiguous intermediate is accepted and counted as 'partial'); every available version must be readable with the expected contents and root hash on tree walk, Iterator, Get (fast path where enabled) and GetVersioned - through a handle loaded at the latest version AND through one loaded at the oldest available version -, the loaded working tree must equal the latest version (and be empty on every read path when no version is left); then the interrupted operation is repeated from the reopened image (re-applying the uncommitted writes for a commit) and the result must equal the crash-free result exactly. " +
 			"evaluations = histories; the counters cuts / cuts_<op> / cut_outcome_<op>_<old|new|same|partial> / retries_ok count the cut points; distinct = hash(config, ops); non-trivial = >=1 operation with >=2 physical writes (i.e. interior cuts) was enumerated.",
 		Assumptions: []string{"crash model of the property: the process stops between two physical storage writes; each batch write is atomic and ordered (torn writes inside a batch and the backend's own durability are out of scope)", "M/R define the states before and after"},
 		Run: func(c *fw.Ctx) {
